@@ -20,8 +20,10 @@
 EXTENDS Integers, Sequences, FiniteSets, TLC, Json, SequencesExt, FiniteSetsExt
 
 CONSTANTS
-    Families,   \* A: set of <<H, W, S, uni, GS>>: frame H x W, sub sizes from the set S, one per pixel (uni=FALSE) or one
-                \*    for all pixels (uni=TRUE), geometries GS \subseteq Geoms
+    Families,   \* A: set of <<H, W, S, sel, GS>>: frame H x W, every mask of it, sub-size maps over the set S selected by
+                \*    sel: "all" = every per-pixel map, "uniform" = one size for all pixels, "ambiguous" = every
+                \*    non-uniform per-pixel map whose number of sub-pixels equals that of a uniform map (TotalLooksUniform);
+                \*    geometries GS \subseteq Geoms
     Geoms,      \* A: set of <<my, mx, oy, ox>>: scales are 4*lcm(sub)*my, 4*lcm(sub)*mx ticks, origin (oy, ox) ticks
     Coefs,      \* A: integer range of the coefficients of the affine functions in the theorems
     MaxPix,     \* B: pixels 1..MaxPix
@@ -97,6 +99,10 @@ F(fn, y, x) ==
       [] fn.kind = "abs"    -> Abs(c[1] * y + c[2] * x + c[3]) - c[4]                  \* zeros and sign changes
       [] fn.kind = "step"   -> IF c[1] * y + c[2] * x + c[3] > 0 THEN c[4] ELSE c[5]   \* discontinuous
       [] fn.kind = "mod"    -> ((c[1] * y + c[2] * x + c[3]) % c[4]) - c[5]            \* oscillating, c[4] > 0
+      \* integer- and boolean-typed profiles: the mean of k ones among n*n sub-values is k/(n*n)
+      [] fn.kind = "ind"    -> IF c[1] * y + c[2] * x + c[3] > 0 THEN 1 ELSE 0          \* indicator of a half plane
+      [] fn.kind = "disc"   -> IF c[1] * Sq(y - c[3]) + c[2] * Sq(x - c[4]) < c[5] THEN 1 ELSE 0   \* top-hat
+      [] fn.kind = "floor"  -> (c[1] * y + c[2] * x + c[3]) \div c[4]                   \* staircase, c[4] > 0
 Over(fn, pts) == [t \in 1 .. Len(pts) |-> F(fn, pts[t][1], pts[t][2])]
 
 \* The decorator: plain evaluation at the pixel centres when every sub size is one, else the binned evaluation on the
@@ -161,7 +167,14 @@ IdleA == inst = << >> /\ phase = "idle" /\ obs = << >>
 IdleB == cfg = << >> /\ v = << >> /\ level = -2 /\ resolved = {} /\ result = << >> /\ evald = << >>
 
 \* ---- Part A: Init picks a frame, a mask, a sub-size map and a geometry; Observe computes what a user can read
-SubMaps(n, S, uni) == IF uni THEN { [k \in 1 .. n |-> s] : s \in S } ELSE [1 .. n -> S]
+\* Non-uniform maps whose total number of sub-pixels is n * s^2 for some size s: the length of the over-sampled array does
+\* not tell them from a uniform map, yet every pixel must still be binned over its own block.
+IsUniform(sub) == \A k \in 1 .. Len(sub) : sub[k] = sub[1]
+TotalLooksUniform(sub) == ~ IsUniform(sub) /\ \E s \in 1 .. 8 : Total(sub) = Len(sub) * Sq(s)
+SubMaps(n, S, sel) ==
+    CASE sel = "uniform" -> { [k \in 1 .. n |-> s] : s \in S }
+      [] sel = "ambiguous" -> { sm \in [1 .. n -> S] : TotalLooksUniform(sm) }
+      [] OTHER -> [1 .. n -> S]
 
 InitA ==
     /\ \E f \in Families : \E g \in f[5] \cap Geoms :
@@ -278,6 +291,15 @@ ConstantsReproduced ==
     Seen => \A c \in Coefs :
               Bin([t \in 1 .. Len(obs.grid) |-> c], inst.sub) = [k \in 1 .. NPix |-> << c, 1 >>]
 AreasSumToUnmaskedArea == Seen => SumSeq(obs.areas) = NPix * inst.sy * inst.sx
+
+\* On a map whose total looks uniform, binning by equal blocks of Sq(sub[1]) entries is NOT the per-pixel mean: it
+\* differs on position tags (every sub-value distinct), although it reproduces constants.
+EqualBlocksAreNotOwnBlocks ==
+    Seen /\ TotalLooksUniform(inst.sub) /\ Total(inst.sub) = NPix * Sq(inst.sub[1]) =>
+        LET tags == [t \in 1 .. Total(inst.sub) |-> t]
+            uni == [k \in 1 .. NPix |-> inst.sub[1]]
+        IN /\ \E k \in 1 .. NPix : BinNum(tags, inst.sub)[k] * Sq(inst.sub[1]) # BinNum(tags, uni)[k] * Sq(inst.sub[k])
+           /\ Bin([t \in 1 .. Total(inst.sub) |-> 3], uni) = Bin([t \in 1 .. Total(inst.sub) |-> 3], inst.sub)
 
 \* the two ways of building the tables agree
 CodeFormulationAgrees == Seen => obs.loop.grid = obs.grid /\ obs.loop.sfs = obs.sfs /\ obs.loop.index = NPix
